@@ -775,9 +775,14 @@ pub fn large_stream<H: HX>(sink: &mut Sink, rng: &mut Rng, kinds: &[Kind], sizes
                     let ext = match j % 3 { 0 => i64::MAX - j as i64, 1 => i64::MIN + j as i64, _ => 0 };
                     ops.push(Op::ChangePriority(k, ext));
                     ops.push(Op::ChangePriorityBy(r.below(n), -ext));
-                    ops.push(Op::PushIncrease((r.below(n), 0, ext)));
-                    ops.push(Op::PushDecrease((r.below(n), 0, ext)));
+                    // (present items are addressed through a key whose payload differs from the stored one: C12)
+                    ops.push(Op::PushIncrease((r.below(n), 7, ext)));
+                    ops.push(Op::PushDecrease((r.below(n), 7, ext)));
                     ops.push(Op::Push((n + j, 0, ext)));
+                    // a present element — the first / last / middle one, which the ascending and descending patterns make the
+                    // current minimum / maximum — re-pushed across the opposite extreme
+                    ops.push(Op::Push((k, 9, -ext)));
+                    ops.push(Op::Get(k));
                     ops.push(Op::Remove(r.below(n)));
                     if pq { ops.push(Op::Pop); ops.push(Op::Peek); ops.push(Op::PopIf(0, W { prio: Some(ext), payload: None }, j % 2 == 0)); }
                     else { ops.push(Op::PopMin); ops.push(Op::PopMax); ops.push(Op::PeekMin); ops.push(Op::PeekMax);
